@@ -28,6 +28,7 @@ From Astisub Require Import Kit.Base Kit.Str Kit.Scan Model.Dur Model.Ssa.
 From Coq Require Import Permutation.
 From Astisub Require Import Proofs.EolProofs Proofs.SsaFields Proofs.SsaText Proofs.SsaRows Proofs.SsaDoc Proofs.SsaInfo Proofs.SsaInfoOrder Proofs.SsaIgnore Proofs.SsaOrder Proofs.SsaRepr Proofs.SsaRead Proofs.SsaReadAny Proofs.SsaEvents Proofs.SsaWriteRender.
 From Astisub Require Import Proofs.SsaStyles Proofs.SsaRewrite Proofs.FuelSsa.
+From Astisub Require Import Kit.Chk Model.SsaC Proofs.SsaChk.
 Import ListNotations.
 
 (* ---- field codecs ---- *)
@@ -385,3 +386,21 @@ Proof. exact seg_c_cons. Qed.
 Print Assumptions C04_segments_equation.
 Theorem C04_segments_is_seg_c : forall s, segments s = seg_c s [].
 Proof. exact segments_c. Qed.
+(* ---- the checked transcription (Model/SsaC.v, Proofs/SsaChk.v) ----
+   The correspondence suites of C04 run the CHECKED transcription of ssa.go, in which every run-time panic site of the
+   Go code is an explicit Panic behind the code's own guard (table: notes/C04.md, Real panic sites (C08) -- ssa.go).
+   It is equal to the model on which every theorem above is stated -- the reader for every value of the options (the
+   two callbacks, nil or not), the writer for every document and map order -- so the theorems above are about the
+   functions that are compared with the library, and reader totality has content. *)
+Theorem C04_checked_reader_agrees : forall o ls e, read_ssa_lines_c o ls e = read_ssa_lines ls e.
+Proof. exact read_ssa_lines_c_ok. Qed.
+Print Assumptions C04_checked_reader_agrees.
+Theorem C04_checked_writer_agrees : forall d order, write_ssa_c d order = write_ssa d order.
+Proof. exact write_ssa_c_ok. Qed.
+Print Assumptions C04_checked_writer_agrees.
+Theorem C04_checked_reader_total : forall o ls e p, read_ssa_lines_c o ls e <> Panic p.
+Proof. exact read_ssa_lines_c_no_panic. Qed.
+Print Assumptions C04_checked_reader_total.
+Theorem C04_checked_writer_total : forall d order p, write_ssa_c d order <> Panic p.
+Proof. exact write_ssa_c_no_panic. Qed.
+Print Assumptions C04_checked_writer_total.
